@@ -857,7 +857,17 @@ def expr(body, o, depth=None, _seen=None):
             return "fn:" + _short(body.crate.q[o["fn"]])
         if "c" in o:
             s = const_str(o)
-            return repr(s) if s is not None else o["c"].replace("const ", "")
+            if s is not None:
+                return repr(s)
+            if "promoted" in o:
+                pb = body.j.get("promoted", [])
+                if o["promoted"] < len(pb):
+                    for bl in pb[o["promoted"]]:
+                        for st in bl["stmts"]:
+                            if st["k"] == "assign" and st["rv"]["k"] == "use" and "c" in st["rv"]["op"]:
+                                cs = const_str(st["rv"]["op"])
+                                return repr(cs) if cs is not None else "&" + st["rv"]["op"]["c"].replace("const ", "")
+            return o["c"].replace("const ", "")
         p = op_place(o)
     else:
         p = o
